@@ -1,14 +1,26 @@
 (* C18 -- saveFile as FlatFS micro-steps (config.go saveFile + ioutil.Ingest):
-   MkdirAll(dir, 0700); CreateTemp (O_CREAT|O_EXCL, 0600); Chmod 0600; Write*;
+   MkdirAll(dir, 0700) = one mkdir per missing level; CreateTemp (O_CREAT|O_EXCL, 0600); Chmod 0600; Write*;
    Close; Rename(temp, path).  No proofs in this file. *)
 From Oras Require Import Base.Prelude Base.FlatFS.
 
 Definition mode_dir : N := 448.   (* 0700 *)
 Definition mode_file : N := 384.  (* 0600 *)
 
-Definition save_steps (dir p t : path) (chunks : list str) : list mstep :=
-  [MkdirAll dir mode_dir; CreateExcl t mode_file; Chmod t mode_file]
+(* [chain]: the config directory preceded by its ancestors, root-most first;
+   os.MkdirAll issues one mkdir per missing level (an existing level is a no-op) *)
+Definition save_steps (chain : list path) (p t : path) (chunks : list str) : list mstep :=
+  map (fun d => MkdirAll d mode_dir) chain
+    ++ [CreateExcl t mode_file; Chmod t mode_file]
     ++ map (Write t) chunks ++ [Close t; Rename t p].
+
+(* a config path that is a SYMBOLIC LINK to [q]: the name [p] holds no file of
+   its own and os.Open(p) reads [q].  saveFile never resolves the link:
+   Rename(t, p) replaces the NAME p -- the link disappears, [q] is not touched *)
+Definition renamed_onto (p : path) (pre : list mstep) : bool :=
+  existsb (fun m => match m with Rename _ d => str_eqb d p | _ => false end) pre.
+
+Definition read_via_link (p q : path) (s0 : fs) (pre : list mstep) : option file :=
+  if renamed_onto p pre then fget p (exec_all s0 pre) else fget q (exec_all s0 pre).
 
 (* ---------- one operation of the store, down to the file system ---------- *)
 From Oras Require Import Generated.GC18 Model.CredFile.
@@ -26,7 +38,7 @@ Section OpSave.
   Variable chunking : str -> list str.    (* how the content is split over write calls *)
 
   (* micro-steps of the operation: a save when the operation writes, nothing otherwise *)
-  Definition op_steps (dir p t : path) (st : state) (o : op) : list mstep :=
+  Definition op_steps (dir : list path) (p t : path) (st : state) (o : op) : list mstep :=
     if saves st o then
       match st_file (fst (step enc dec st o)) with
       | Some d => save_steps dir p t (chunking (render d))
